@@ -129,8 +129,29 @@ def loop_texts(fn):
     return sorted(_shape_txt(n) for n in ast.walk(fn) if isinstance(n, ast.For))
 
 
+def import_shape(tree):
+    """({bound name: 'module.attr'} for from-imports, [module names bound by plain imports]) at module level (incl. try/if blocks)"""
+    frm, mods = {}, []
+
+    def rec(body):
+        for st in body:
+            if isinstance(st, ast.ImportFrom) and st.module and not st.level:
+                for a in st.names:
+                    if a.name != '*':
+                        frm[a.asname or a.name] = '%s.%s' % (st.module, a.name)
+            elif isinstance(st, ast.Import):
+                for a in st.names:
+                    mods.append(a.asname or a.name.split('.')[0])
+            elif isinstance(st, (ast.If, ast.Try)):
+                for sub in ([st.body, st.orelse] if isinstance(st, ast.If) else [st.body, st.orelse, st.finalbody] + [h.body for h in st.handlers]):
+                    rec(sub)
+    rec(tree.body)
+    return frm, sorted(set(mods))
+
+
 def shape_of(tree):
     return {
+        'from_imports': import_shape(tree)[0], 'imports': import_shape(tree)[1],
         'loops': {q: loop_texts(f) for q, f in functions(tree) if loop_texts(f)},
         'comps': {q: comp_texts(f) for q, f in functions(tree) if comp_texts(f)},
         'consts': sorted(const_names(tree)),
@@ -342,6 +363,49 @@ def inline_constants(tree, ref):
             tree.body[i] = a.visit(st)
         n += len(cenv)
     return n
+
+
+# ---------------------------------------------------------------------------------------------- 0. import style
+def normalise_imports(tree, ref):
+    """`from struct import pack` + `pack(..)` where the reference wrote `import struct` + `struct.pack(..)` (and the reverse):
+    references to an imported name are written the way the reference module writes them.  Names that the module also binds itself
+    are left alone."""
+    rfrm, rmods = ref.get('from_imports'), ref.get('imports')
+    if rfrm is None or rmods is None:
+        return 0
+    frm, mods = import_shape(tree)
+    bound = set()
+    for n in ast.walk(tree):
+        if isinstance(n, ast.Name) and isinstance(n.ctx, (ast.Store, ast.Del)):
+            bound.add(n.id)
+        elif isinstance(n, (ast.FunctionDef, ast.ClassDef)):
+            bound.add(n.name)
+        elif isinstance(n, ast.arg):
+            bound.add(n.arg)
+    to_dotted = {a: q for a, q in frm.items() if a not in rfrm and a not in bound and q.split('.')[0] in rmods and q.count('.') == 1}
+    to_bare = {q: a for a, q in rfrm.items() if a not in frm and a not in bound and q.split('.')[0] in mods and q.count('.') == 1 and a == q.split('.')[1]}
+    if not to_dotted and not to_bare:
+        return 0
+    cnt = [0]
+
+    class T(ast.NodeTransformer):
+        def visit_Name(self, n):
+            if isinstance(n.ctx, ast.Load) and n.id in to_dotted:
+                m_, a_ = to_dotted[n.id].split('.')
+                cnt[0] += 1
+                return ast.copy_location(ast.Attribute(value=ast.Name(id=m_, ctx=ast.Load()), attr=a_, ctx=ast.Load()), n)
+            return n
+
+        def visit_Attribute(self, n):
+            self.generic_visit(n)
+            if isinstance(n.ctx, ast.Load) and isinstance(n.value, ast.Name) and '%s.%s' % (n.value.id, n.attr) in to_bare:
+                cnt[0] += 1
+                return ast.copy_location(ast.Name(id=to_bare['%s.%s' % (n.value.id, n.attr)], ctx=ast.Load()), n)
+            return n
+    for i, st in enumerate(tree.body):
+        if not isinstance(st, (ast.Import, ast.ImportFrom)):
+            tree.body[i] = T().visit(st)
+    return cnt[0]
 
 
 # ---------------------------------------------------------------------------------------------- 2b. precompiled struct formats
@@ -1205,7 +1269,7 @@ def normalise(tree, path, ref_locals):
     if ref is None:
         return {}
     out = {}
-    for name, fn in (('attributes', lambda: rename_attributes(tree, ref)), ('constants', lambda: inline_constants(tree, ref)),
+    for name, fn in (('imports', lambda: normalise_imports(tree, ref)), ('attributes', lambda: rename_attributes(tree, ref)), ('constants', lambda: inline_constants(tree, ref)),
                      ('structs', lambda: inline_struct_objects(tree, ref)),
                      ('helpers', lambda: inline_helpers(tree, ref)), ('ifexps', lambda: expand_ifexps(tree, ref)),
                      ('unrolled', lambda: unroll_loops(tree, ref)),
